@@ -102,8 +102,11 @@ def show_pairs(items):
 
 
 def index_line(d, kind):
-    st = d._datalists[1]
-    if not all(k in st for k in ("next_key", "by_key", "key_index", "by_value")):
+    try:
+        st = d._datalists[1]
+    except Exception:  # noqa: BLE001
+        st = None
+    if not isinstance(st, dict) or not all(k in st for k in ("next_key", "by_key", "key_index", "by_value")):
         # the index is an internal structure: if a refactor replaced it, only the observable look-ups are compared
         return "internal-index-not-available"
     return (f"next={st['next_key']} bk={show_pairs((k, _val_id(kind, e)) for k, e in st['by_key'].items())} "
@@ -163,8 +166,12 @@ def check_lookup_lists(ctx: Ctx):
                                       f"{'KeyError' if got is None else got}, the entry with that key carries value {v}",
                                       {"kind": "datalist", "entries": perm, "value_kind": kind, "key": k})
                         break
-                if dd._datalists[1]["next_key"] != (max(keys) + 1 if keys else 1):
-                    ctx.violation("next-key-not-above-every-key", f"next_key {dd._datalists[1]['next_key']} for keys {keys}",
+                try:   # (the key counter is internal state: looked at only while it has this shape)
+                    nk = dd._datalists[1]["next_key"]
+                except Exception:  # noqa: BLE001
+                    nk = None
+                if nk is not None and nk != (max(keys) + 1 if keys else 1):
+                    ctx.violation("next-key-not-above-every-key", f"next_key {nk} for keys {keys}",
                                   {"kind": "datalist", "entries": perm, "value_kind": kind})
     ctx.correspond("DataLists.add_table + lookup_value (real class, stub model)", req, out, keep=2)
 
